@@ -14,7 +14,7 @@ from ..runner import Acc
 ID = 'C19'
 LEVEL = 'model_checking'
 RULE = ('programs (facts, rules with cut / if-then-else / negation, atoms with embedded newlines and with a # after a '
-        'newline, non-ASCII atoms, lists and anonymous variables, empty and comment-only files, a syntax error, a '
+        'newline, atoms containing every other line separator (bare CR, CR LF, VT, FF, FS/GS/RS, NEL, LS, PS), non-ASCII atoms, lists and anonymous variables, empty and comment-only files, a syntax error, a '
         'non-callable goal, a clause too large for Python, an unsupported term) x ALL 16 combinations of -d '
         '--debug-parser --debug-generator --debug-filename x {stdout, -o file} x {file argument, - with the text on '
         'standard input} x {one source, two sources, a second source that does not compile}, each run as a real '
@@ -26,7 +26,7 @@ RULE = ('programs (facts, rules with cut / if-then-else / negation, atoms with e
         'non-trivial = a debug option is on or the input comes from stdin')
 ASSUMPTIONS = ['the command line is exercised as `python -m yldprolog.compiler` with PYTHONPATH pointing at the examined tree '
                '(the installed yldpc entry point calls the same main())',
-               'comment line = line whose first character is #']
+               'comment line = line (as the Python tokenizer splits lines: LF, CR LF, bare CR) whose first character is #']
 
 PROGRAMS = [
     ('facts', 'parent(tom,bob).\nparent(pam,bob).\n', 'ok'),
@@ -41,9 +41,11 @@ PROGRAMS = [
     ('too-large', 'p(X) :- %s.\n' % ', '.join('g%d(X)' % i for i in range(25)), 'compile-error'),
     ('leftover', 'foo(a). ) garbage\n', 'syntax'),
     ('unterminated', "foo(a).\nbar('unterminated).\n", 'syntax'),
+    ('linebreaks', "m1('five\rsix').\nm2('a\r\nb').\nm3('x\x0by', 'p\x0cq').\nm4('u\x85v', 's\u2028t', 'w\u2029z', 'i\x1cj\x1dk\x1el').\n"
+                   "p(X) :- 'go\rdef'(X), X = 'cr\rafter'.\ngreet('hello\rdef injected_0():\r  yield False\rmakelist = variable\r#').\n", 'ok'),
     ('multiline-clause', "longer(\n  'first\nsecond',\n  X\n) :-\n  true,\n  X = 'x'.\n", 'ok'),
 ]
-QUICK = ['facts', 'newlines', 'unicode', 'syntax-error', 'control']
+QUICK = ['facts', 'newlines', 'unicode', 'syntax-error', 'control', 'linebreaks']
 FLAGS = ['-d', '--debug-parser', '--debug-generator', '--debug-filename']
 
 
@@ -51,8 +53,12 @@ def bounds(tier):
     return {'programs': len(QUICK) if tier == 'quick' else len(PROGRAMS), 'flag_combinations': 16}
 
 
+_PY_LINE_END = re.compile(r'\r\n|\r|\n')
+
+
 def strip_comments(s):
-    return '\n'.join(l for l in s.split('\n') if not l.startswith('#'))
+    """remove comment lines; a line ends where it ends for the Python tokenizer (LF, CR LF or a bare CR)"""
+    return '\n'.join(l for l in _PY_LINE_END.split(s) if not l.startswith('#'))
 
 
 def run_cli(args, stdin_text, cwd):
@@ -113,7 +119,7 @@ def check_config(tmp, table, cfg, cache):
     rc, so, se = run_cli(args, stdin_text, tmp)
     produced = so
     if outpath:
-        produced = open(outpath, encoding='utf8').read() if os.path.exists(outpath) else ''
+        produced = open(outpath, encoding='utf8', newline='').read() if os.path.exists(outpath) else ''
     label = 'yldpc %s   (cwd holds %s%s)\n' % (' '.join(args), ', '.join(s + '.prolog' for s in sources),
                                                '; the text of %s.prolog is piped to stdin' % sources[0] if inp == 'stdin' else '')
     kinds = [table[s][1] for s in sources]
@@ -162,7 +168,7 @@ def setup(tmp, progs):
     table = {}
     for name, text, kind in PROGRAMS:
         table[name] = (text, kind)
-        with open(os.path.join(tmp, name + '.prolog'), 'w', encoding='utf8') as f:
+        with open(os.path.join(tmp, name + '.prolog'), 'w', encoding='utf8', newline='') as f:
             f.write(text)
     return table
 
